@@ -155,6 +155,9 @@ package cff
 // encodeEncoding (CFF built-in encoding, TN 5176 section 12): checked as an
 // encoder - every count, code, SID and range length written into one or two
 // bytes must be lossless.
+//@ assume func unsupported(feature string) (err error)
+//@   ensures err != nil
+//@   modifies nothing
 //@ assume func invalidSince(reason string) (err error)
 //@   ensures err != nil
 //@   modifies nothing
@@ -225,3 +228,31 @@ package cff
 //@     invariant parser.inv(p) && 0 <= i && i <= nLeft + 1 && len(charset) == atentry(len(charset)) + i && fresh(charset) && faults(p.r) == old(faults(p.r)) && charset[0] == 0 && 1 <= len(charset) && first <= 65535 && 0 <= first
 //@     invariant forall k int :: 0 <= k && k < len(charset) ==> 0 <= charset[k] && charset[k] <= 65535
 //@     decreases nLeft + 1 - i
+
+// readEncoding: total on arbitrary bytes for any charset; every code maps to
+// glyph 0 or to a glyph of the charset.
+//@ func readEncoding(p *parser.Parser, charset []int32) (enc []glyph.ID, err error)   props: C13 C02 C18
+//@   requires parser.inv(p) && len(charset) <= 65535
+//@   ensures err == nil ==> parser.inv(p) && len(enc) == 256 && forall c int :: 0 <= c && c < 256 ==> enc[c] == 0 || enc[c] < len(charset)
+//@   ensures p.r == old(p.r) && (faults(p.r) > old(faults(p.r)) ==> err != nil)
+//@   modifies p.*, allelems(byte), rpos(p.r), faults(p.r)
+//@   loop 0
+//@     invariant parser.inv(p) && p.r == old(p.r) && faults(p.r) <= old(faults(p.r)) && fresh(res) && len(res) == 256 && fresh(codes) && len(codes) == nCodes && nCodes < len(charset) && currentGid == 1 + iter
+//@     invariant forall c int :: 0 <= c && c < 256 ==> res[c] == 0 || res[c] < currentGid
+//@   loop 1
+//@     invariant parser.inv(p) && p.r == old(p.r) && faults(p.r) <= old(faults(p.r)) && fresh(res) && len(res) == 256 && 0 <= i && i <= nRanges && 1 <= currentGid && currentGid <= len(charset) + 1 && currentGid <= 65535
+//@     invariant forall c int :: 0 <= c && c < 256 ==> res[c] == 0 || (res[c] < currentGid && res[c] < len(charset))
+//@     decreases nRanges - i
+//@   loop 2
+//@     invariant parser.inv(p) && p.r == old(p.r) && faults(p.r) <= old(faults(p.r)) && fresh(res) && len(res) == 256 && 0 <= i && i < nRanges && 1 <= currentGid && currentGid <= len(charset) + 1 && currentGid <= 65535 && first <= j && j <= first + nLeft + 1 && first + nLeft <= 255
+//@     invariant forall c int :: 0 <= c && c < 256 ==> res[c] == 0 || (res[c] < currentGid && res[c] < len(charset))
+//@     decreases first + nLeft + 1 - j
+//@   loop 3
+//@     invariant parser.inv(p) && p.r == old(p.r) && faults(p.r) <= old(faults(p.r)) && fresh(res) && len(res) == 256 && lookup != nil && fresh(lookup) && 1 <= currentGid
+//@     invariant forall c int :: 0 <= c && c < 256 ==> res[c] == 0 || (res[c] < currentGid && res[c] < len(charset))
+//@     invariant forall k uint16 :: has(lookup, k) ==> lookup[k] < len(charset)
+//@   loop 4
+//@     invariant parser.inv(p) && p.r == old(p.r) && faults(p.r) <= old(faults(p.r)) && fresh(res) && len(res) == 256 && lookup != nil && fresh(lookup) && 0 <= i && i <= nSups && 1 <= currentGid
+//@     invariant forall c int :: 0 <= c && c < 256 ==> res[c] == 0 || res[c] < len(charset)
+//@     invariant forall k uint16 :: has(lookup, k) ==> lookup[k] < len(charset)
+//@     decreases nSups - i
